@@ -69,6 +69,9 @@ func (g *rig) start(k int) *gen {
 	gate.Add(1)
 	for i := 0; i < k; i++ {
 		ctx, cancel := context.WithCancel(context.Background())
+		if i%2 == 1 {
+			ctx = vkit.ByValue(ctx) // a by-value context of a non-comparable dynamic type
+		}
 		ge.cancels = append(ge.cancels, cancel)
 		ge.wg.Add(1)
 		go func() {
